@@ -512,7 +512,7 @@ func rulePairedEffects(w *World, r *Report) {
 		return
 	}
 	muts := w.treeMutators(tm)
-	r.Expect("mutators of ast.BaseNode", len(muts), 5)
+	r.Expect("mutators of ast.BaseNode", len(muts), 3)
 	nPaths := 0
 	for _, fn := range muts {
 		key := w.FnKey(fn)
